@@ -12,6 +12,7 @@ package main
 import (
 	"fmt"
 	"os"
+	"runtime/debug"
 	"runtime/pprof"
 	"sort"
 	"strconv"
@@ -600,7 +601,15 @@ func options(k int) [][]int {
 	return out
 }
 
-func runLayout(r *ev.Run, l rig.Layout, opts [][]int, maxRows int) {
+// family is one slice of the statement universe of a layout.
+type family struct {
+	form    string
+	rows    int     // exact number of rows
+	needLit bool    // only vectors with at least one plain-literal row (class 0)
+	opts    [][]int // option vectors
+}
+
+func runLayout(r *ev.Run, l rig.Layout, fams []family) {
 	b, err := rig.Build(l)
 	if err != nil {
 		ev.Fatalf("layout: %v", err)
@@ -635,35 +644,35 @@ func runLayout(r *ev.Run, l rig.Layout, opts [][]int, maxRows int) {
 		if res.v == nil && res.key != "" && c.Perm == 0 && c.Seq == "none" && !c.OnDup && !c.Qual && !c.Replace {
 			r.Distinct("nontrivial", l.String()+"|"+c.Form+"|"+strings.Join(c.Classes, ",")+"|"+res.key)
 		}
-		if evals%50021 == 1 {
-			r.Sample(map[string]interface{}{"layout": l.String(), "sql": c.SQL, "outcome": res.key})
+		if evals == 1 || evals == 1777 {
+			r.Sample(map[string]interface{}{"layout": l.String(), "sql": c.SQL, "outcome": strOr(res.key, "violation")})
 		}
 	}
-	for _, o := range opts {
-		base := Case{Layout: l, Replace: o[0] == 1, Perm: o[1], Seq: seqModes[o[2]], OnDup: o[3] == 1, Qual: o[4] == 1}
-		for _, form := range []string{"values", "set"} {
-			rowsMax := maxRows
-			if form == "set" {
-				rowsMax = 1
-			}
-			enum.Seqs(len(cs), 1, rowsMax, func(seq []int) {
-				if base.Seq == "onkey_omit" {
-					for _, x := range seq {
-						if x != 0 {
-							return // the key column is absent: classes do not matter
-						}
+	for _, f := range fams {
+		for _, o := range f.opts {
+			base := Case{Layout: l, Form: f.form, Replace: o[0] == 1, Perm: o[1], Seq: seqModes[o[2]], OnDup: o[3] == 1, Qual: o[4] == 1}
+			enum.Seqs(len(cs), f.rows, f.rows, func(seq []int) {
+				lits := 0
+				for _, x := range seq {
+					if x == 0 {
+						lits++
 					}
 				}
+				if f.needLit && lits == 0 {
+					return
+				}
+				if base.Seq == "onkey_omit" && lits != len(seq) {
+					return // the key column is absent: classes do not matter
+				}
 				c := base
-				c.Form = form
 				for _, x := range seq {
 					c.Classes = append(c.Classes, cs[x].Name)
 				}
 				run(c)
 			})
-		}
-		if r.TimeUp() {
-			break
+			if r.TimeUp() {
+				break
+			}
 		}
 	}
 	r.Add("evaluations", evals)
@@ -710,16 +719,26 @@ func main() {
 		pprof.StartCPUProfile(fh)
 		defer pprof.StopCPUProfile()
 	}
+	debug.SetGCPercent(400)
 	ls := layouts(r)
-	opts := options(r.Pick(1, 2))
-	maxRows := 3
-	if os.Getenv("C03_MAXROWS") != "" {
-		maxRows, _ = strconv.Atoi(os.Getenv("C03_MAXROWS"))
+	o0 := options(0)
+	o1 := options(1)
+	o2 := options(2)
+	oRep := [][]int{o1[0], {1, 0, 0, 0, 0}}
+	var fams []family
+	var bound string
+	if r.Quick() {
+		fams = []family{{"values", 1, false, o1}, {"values", 2, false, o1}, {"set", 1, false, o1}, {"values", 3, true, oRep}}
+		bound = fmt.Sprintf("VALUES with 1-2 rows and SET: all sharding-value class vectors x %d option vectors (<=1 deviation in replace/column order (6)/sequence mode (6)/on-duplicate/db-qualified); VALUES with 3 rows: all class vectors with at least one plain literal row x {INSERT, REPLACE}", len(o1))
+	} else {
+		fams = []family{{"values", 1, false, o2}, {"values", 2, false, o2}, {"set", 1, false, o2}, {"values", 3, false, o1}}
+		bound = fmt.Sprintf("VALUES with 1-2 rows and SET: all sharding-value class vectors x %d option vectors (<=2 deviations in replace/column order (6)/sequence mode (6)/on-duplicate/db-qualified); VALUES with 3 rows: all class vectors x %d option vectors (<=1 deviation)", len(o2), len(o1))
 	}
+	_ = o0
 	var mu sync.Mutex
 	done := 0
 	n := enum.Parallel(len(ls), r.TimeUp, func(i int) {
-		runLayout(r, ls[i], opts, maxRows)
+		runLayout(r, ls[i], fams)
 		mu.Lock()
 		done++
 		mu.Unlock()
@@ -728,9 +747,7 @@ func main() {
 		r.Capped(fmt.Sprintf("%d of %d layouts completed", done, len(ls)))
 	}
 	r.Set("layouts", len(ls))
-	r.Set("option_vectors", len(opts))
-	r.Set("max_rows", maxRows)
-	r.Set("bound", fmt.Sprintf("%d layouts (rule x linked x slices x tables-per-slice) x {VALUES 1-%d rows, SET} x all sharding-value class vectors x %d option vectors (<=%d deviations in replace/column order/sequence/on-duplicate/db-qualified)", len(ls), maxRows, len(opts), r.Pick(1, 2)))
+	r.Set("bound", fmt.Sprintf("%d layouts (11 rule types x {own table, linked child} + global, x slices x tables-per-slice shapes); per layout: %s; plus one point SELECT per routable literal class", len(ls), bound))
 	r.Set("rule", "every statement of the bounded universe is enumerated (no sampling). distinct_nontrivial counts distinct (layout, form, value-class vector, outcome) with default options where the outcome is either a verified placement of the rows over physical tables or a rejection, plus distinct (layout, class) point lookups that were pruned to exactly the table of the inserted row")
 	r.Assume("Rule.FindTableIndex is the reference for where a sharding value lives (its agreement with Mycat / the rule definitions is the subject of C07-C09)")
 	r.Assume("a panic inside BuildPlan is recovered by handleQuery and therefore counts as a rejection")
